@@ -20,7 +20,8 @@ RULE = ("Projects as for C03/C04 with consistent line endings (pure LF, CRLF or 
         "diff has >= 2 files or >= 2 hunks.")
 ASSUME = ["stdout of the dry run carries only the diff (logging goes to stderr)", "fake git for the commit-on variant"]
 
-DIFFISH = ["--- x", "+++ x", "@@ -1 +1 @@", " leading blank", "-removed?", "+added?", "--- bumpver.toml", "@@", "---", "+++ b/file"]
+DIFFISH = ["--- x", "+++ x", "@@ -1 +1 @@", " leading blank", "-removed?", "+added?", "--- bumpver.toml", "@@", "---", "+++ b/file",
+           "\x1b[31mred\x1b[0m text", "esc \x1b[1m bold", "\x1b[2K"]
 
 
 def build(d):
@@ -67,7 +68,7 @@ def build(d):
     msg = d.choice(["release {version}", "v{new_version", "{0} {new_version}", "done }", "{old_version.major}"]) if k == 0 else \
         d.choice(["release {new_version}", "bump OLD -> NEW"]) if k < 3 else None
     return {"spec": spec, "flags": flags, "date": date, "commit": d.chance(1, 3), "hooks": d.chance(1, 2), "fault": fault, "msg": msg,
-            "msg_kind": d.choice(["-c", "--tag-message"])}
+            "msg_kind": d.choice(["-c", "--tag-message"]), "remote_tag": d.chance(1, 5)}
 
 
 def check(case):
@@ -93,6 +94,7 @@ def check(case):
         classes.append("with-message-template")
     tmp = tempfile.mkdtemp(prefix="c13_")
     fvdir = None
+    fetching = False
     try:
         options = {}
         env = None
@@ -104,13 +106,29 @@ def check(case):
             fvdir = tempfile.mkdtemp(prefix="c13fv_")
             fv = fakevcs.FakeVCS(tmp, "git", state_dir=fvdir)
             fv.set("status", "")
+            if case.get("remote_tag") and not spec["legacy"]:
+                # a remote that holds a newer version tag which only a fetch brings in: the dry run and the real run
+                # must start from the same version (fetching is not a mutating command; --no-fetch is not given)
+                from harness import bumpref
+                from harness.refmodel import ref_render
+                try:
+                    newer = ref_render(spec["ast"], bumpref.ref_bump(spec["ast"], state, major=True, minor=True, patch=True, date=date))
+                except bumpref.Overflow:
+                    newer = None
+                if newer and not any(c.isspace() for c in newer):
+                    fv.set("remote", "git@example.org:x/y.git\n")
+                    fv.set("tags_all", "")
+                    fv.set("after_fetch.tags_all", newer + "\n")
+                    fetching = True
+                    classes.append("newer-tag-arrives-with-fetch")
             if case["hooks"]:
                 pre = fv.install_hook("pre-hook")
                 post = fv.install_hook("post-hook")
                 args = args + ["--pre-commit-hook", pre, "--post-commit-hook", post]
             env = fv.env()
         before = projgen.snapshot(tmp)
-        dry = bv.run(["update", "--no-fetch", "--dry"] + args, cwd=tmp, env=env, today=date)
+        nofetch = [] if fetching else ["--no-fetch"]
+        dry = bv.run(["update"] + nofetch + ["--dry"] + args, cwd=tmp, env=env, today=date)
         mid = projgen.snapshot(tmp)
         detail = {"args": args, "pattern": spec.get("pattern_text") or pattern_str(spec["ast"]), "dry": dry.summary(1500)}
         sig = {"legacy": spec["legacy"], "commit": case["commit"]}
@@ -121,6 +139,9 @@ def check(case):
             if bad:
                 return viol("dry-run-ran-mutating-vcs-command-or-hook", sig, dict(detail, log=bad), classes=tuple(classes))
             fv.reset_log()
+            if fetching:
+                # the real run starts from the same remote state as the dry run did
+                fv.set("tags_all", "")
         if dry.exit != 0:
             classes.append("dry-declined")
             return ok(nt=False, classes=tuple(classes))
@@ -152,7 +173,7 @@ def check(case):
         nt = len(files) >= 2 or nhunks >= 2
         if nhunks > len(files):
             classes.append("file-with-several-hunks")
-        real = bv.run(["update", "--no-fetch"] + args, cwd=tmp, env=env, today=date)
+        real = bv.run(["update"] + nofetch + args, cwd=tmp, env=env, today=date)
         after = projgen.snapshot(tmp)
         detail["real"] = real.summary(400)
         if real.exit != 0:
